@@ -110,6 +110,12 @@ def gen_iface(g, k):
         p['async'] = r.random() < 0.3
         p['doc'] = r.choice(DOCS) if r.random() < 0.4 else None
         I.props.append(p)
+    # by construction: an async handler that uses the object server, on an interface whose methods are
+    # spawned (the first interface) and on one whose methods run inline (the second)
+    if k in (0, 1) and I.methods:
+        I.spawn = (k == 0)
+        I.methods[0]['async'] = True
+        I.methods[0]['server'] = True
     # by construction (one program per quick run must not depend on luck for these): the first two
     # interfaces carry readable and writable properties crossing setter receiver x sync/async x
     # emits mode, and share a property name
